@@ -23,3 +23,25 @@ package chpool
 //@   ensures old(c.res) != nil ==> old(c.res).releases + old(c.res).destroys == old(old(c.res).releases) + old(old(c.res).destroys) + 1 {exactly-once}
 //@   ensures old(c.res) != nil && old(c.res).value.client.closed ==> old(c.res).destroys == old(old(c.res).destroys) + 1 {closed-client-destroyed}
 //@   ensures old(c.res) != nil && elapsedSince(old(c.res).csec, old(c.res).cnsec) > c.p.options.MaxConnLifetime ==> old(c.res).destroys == old(old(c.res).destroys) + 1 {expired-destroyed}
+
+//@ contract (cr *connResource) getConn(p, res) (c) props(C11)
+//@   requires cr != nil
+//@   modifies cr.clients, contents(cr.clients)
+//@   ensures c != nil && c.res == res && c.p == p {handle-bound}
+
+//@ contract (p *Pool) Acquire(ctx) (c, err) props(C11)
+//@   requires p != nil && p.pool != nil
+//@   modifies all(p.pool)
+//@   ensures err == nil ==> c != nil && c.p == p && c.res != nil && c.res.acquired {holds-on-success}
+//@   ensures err != nil ==> c == nil {nothing-on-failure}
+
+//@ contract (c *Client) client() (r) props(C11)
+//@   requires c != nil && c.res != nil && c.res.acquired
+//@   ensures r == c.res.value.client
+
+//@ contract (c *Client) Do(ctx, q) (err) props(C11)
+//@   requires c != nil && c.res != nil && c.res.acquired && c.res.value != nil && c.res.value.client != nil
+//@   modifies all(c.res.value.client)
+//@ contract (c *Client) Ping(ctx) (err) props(C11)
+//@   requires c != nil && c.res != nil && c.res.acquired && c.res.value != nil && c.res.value.client != nil
+//@   modifies all(c.res.value.client)
